@@ -14,7 +14,8 @@ def load(name):
 
 def main():
     out = []
-    seeded = load('seeded')
+    # (results of patches that were superseded / renamed since are not listed)
+    seeded = [r for r in load('seeded') if os.path.exists(os.path.join(HERE, 'seeded', r['mutant'], 'patch.diff'))]
     out.append('### 9.1 Seeded changes from independent sub-agents (%d)\n' % len(seeded))
     out.append('| id | what it does / what it needs to manifest | tests | caught by (mechanism labels) | own |')
     out.append('|---|---|---|---|---|')
@@ -36,7 +37,7 @@ def main():
                                                              fz, 'yes' if own else 'no'))
     out.append('\n%d of %d caught by at least one check, %d by the check of the property they were written against.\n' % (
         n_caught, len(seeded), n_own))
-    mut = load('mutants')
+    mut = [r for r in load('mutants') if os.path.exists(os.path.join(HERE, 'mutants', r['mutant']))]
     out.append('### 9.2 Mutant corpus (%d)\n' % len(mut))
     out.append('| mutant | repo tests | caught by |')
     out.append('|---|---|---|')
